@@ -1512,6 +1512,16 @@ class Evaluator:
                 if r and r[0] == "func" and not any(isinstance(n_, ast.Return) and n_.value is not None for n_ in ast.walk(r[1])) \
                         and any(isinstance(n_, ast.Call) and isinstance(n_.func, ast.Name) and n_.func.id == r[1].name for n_ in ast.walk(r[1])):
                     r = None
+                # nor has a procedure that walks `<parameter>.items()` and stores into another parameter's entries (a dictionary merge helper,
+                # recursive or not): an opaque call event, classified by the rule that meets it
+                if r and r[0] == "func" and not any(isinstance(n_, ast.Return) and n_.value is not None for n_ in ast.walk(r[1])):
+                    ps_ = {a_.arg for a_ in r[1].args.args}
+                    walks = any(isinstance(n_, ast.For) and isinstance(n_.iter, ast.Call) and isinstance(n_.iter.func, ast.Attribute) and n_.iter.func.attr == "items"
+                                and isinstance(n_.iter.func.value, ast.Name) and n_.iter.func.value.id in ps_ for n_ in ast.walk(r[1]))
+                    stores = any(isinstance(n_, ast.Assign) and any(isinstance(t_, ast.Subscript) and isinstance(t_.value, ast.Name) and t_.value.id in ps_ for t_ in n_.targets)
+                                 for n_ in ast.walk(r[1]))
+                    if walks and stores:
+                        r = None
                 if r and r[0] in ("func", "method"):
                     self._inlining.append(nm)
                     try:
